@@ -81,6 +81,10 @@ func c14Build(c c14Case) (*interp.ExecEnv, ast.Word) {
 	var w ast.Word
 	for k, s := range c.Segs {
 		var inner ast.WordPart = &ast.Lit{Value: s.Text}
+		if s.Text == "" && !s.Quoted && c.Real != 1 {
+			// an unquoted expansion that produces nothing: ${u:-} with u unset
+			inner = &ast.ParamExp{Braces: true, Name: &ast.Lit{Value: "u"}, Op: ":-", Word: ast.Word{}}
+		}
 		if c.Real == 1 {
 			name := fmt.Sprintf("v%d", k)
 			env.Set(name, s.Text)
@@ -130,7 +134,7 @@ func init() {
 	register(&check{
 		id:    "C14",
 		level: "model_checking",
-		rule: "every word of ≤ N segments (N=6 quick, 7 thorough) over the 8 segment kinds × IFS ∈ {unset, default, ' ,', ',', ':', '', 'é,', '|', ' x', '_~<nl>', '\\@', '<nl>', ' '} (white space outside IFS — tab, space, newline or CR — is a segment kind of its own, also between ordinary characters when IFS is white space only) × realisations {literal parts, $var parts, single-quoted}; " +
+		rule: "every word of ≤ N segments (N=6 quick, 7 thorough) over the segment kinds (incl. an unquoted expansion that produces nothing, ${u:-} / an empty $var) × IFS ∈ {unset, default, ' ,', ',', ':', '', 'é,', '|', ' x', '_~<nl>', '\\@', '<nl>', ' '} (white space outside IFS — tab, space, newline or CR — is a segment kind of its own, also between ordinary characters when IFS is white space only) × realisations {literal parts, $var parts, single-quoted}; " +
 			"plus words of 1…40 repetitions of 9 segment units; plus histories on ONE environment: every sequence of ≤ 3 (thorough 4) IFS settings with 5 probe words (literal and through a variable) expanded after each change, and every pair (IFS₁, probe) → (IFS₂, word ≤ 3 characters over {a space , : é tab}); " +
 			"non-trivial = the rule yields ≥ 2 fields (the word really is cut), and every history",
 		assume: []string{"reference splitter written from the property statement (c14Ref)", "NoGlob set so that pathname expansion does not interfere; words are AST values (white space cannot be written literally)"},
@@ -164,7 +168,7 @@ func c14Run(w *W) {
 		v   string
 		set bool
 	}{{"", false}, {" \t\n", true}, {" ,", true}, {",", true}, {":", true}, {"", true}, {"é,", true}, {"|", true}, {" x", true}, {"_~\n", true}, {"\\@", true}, {"\n", true}, {" ", true}}
-	for _, ifs := range ifsList {
+	for ii, ifs := range ifsList {
 		eff := ifs.v
 		if !ifs.set {
 			eff = " \t\n"
@@ -185,6 +189,9 @@ func c14Run(w *W) {
 			}
 		}
 		kinds := []c14Seg{{"a", false}, {"a", true}, {"", true}, {"~zz", false}}
+		if ii < 3 || ifs.v == "" && ifs.set {
+			kinds = append(kinds, c14Seg{"", false}) // (unset, default, ' ,' and the empty IFS)
+		}
 		if ws != "" {
 			kinds = append(kinds, c14Seg{ws, false}, c14Seg{ws, true})
 		}
